@@ -296,13 +296,22 @@ def run_contract(contract, funsigs=None, options=None, others=(), reset_unique=T
     rr = RunResult()
     rr.ctx = ctx
     buf = io.StringIO()
-    with contextlib.redirect_stdout(buf), contextlib.redirect_stderr(buf):
-        try:
-            rr.results = hm.run_contract(ctx)
-        except BaseException as e:  # noqa
-            if isinstance(e, KeyboardInterrupt):
-                raise
-            rr.exception = e
+    # the cyclic collector may otherwise run inside one of halmos's solver threads and release z3 objects there while the main
+    # thread is using the same z3 context (z3 is not thread safe): collect only at this safe point
+    import gc
+
+    gc.collect()
+    gc.disable()
+    try:
+        with contextlib.redirect_stdout(buf), contextlib.redirect_stderr(buf):
+            try:
+                rr.results = hm.run_contract(ctx)
+            except BaseException as e:  # noqa
+                if isinstance(e, KeyboardInterrupt):
+                    raise
+                rr.exception = e
+    finally:
+        gc.enable()
     rr.stdout = buf.getvalue()
     rr.logs = hdriver.drain_logs()
     return rr
@@ -345,6 +354,10 @@ def run_main(contracts, argv=(), toml=None):
     import signal
 
     old_handlers = {s: signal.getsignal(s) for s in (signal.SIGINT, signal.SIGTERM)}
+    import gc
+
+    gc.collect()
+    gc.disable()
     try:
         with contextlib.redirect_stdout(buf), contextlib.redirect_stderr(buf):
             try:
@@ -354,6 +367,7 @@ def run_main(contracts, argv=(), toml=None):
             except Exception as e:  # noqa
                 exc = e
     finally:
+        gc.enable()
         os.environ["PATH"] = old_path
         for s, h in old_handlers.items():
             try:
